@@ -2,8 +2,13 @@ package c16
 
 import (
 	"bufio"
+	"crypto/tls"
 	"encoding/json"
 	"fmt"
+	"strings"
+
+	"github.com/go-logr/logr"
+	apiv1 "k8s.io/api/core/v1"
 
 	metav1 "k8s.io/apimachinery/pkg/apis/meta/v1"
 	"k8s.io/apimachinery/pkg/types"
@@ -30,12 +35,12 @@ type polSpec struct {
 func specimenPolicies() ([]polSpec, []*graph.BackendTLSPolicy) {
 	sys := "System"
 	specs := []polSpec{
-		{ID: 1, Refs: []inRef{{Kind: "ConfigMap", Name: "ca-1"}}, Host: "b.example.com"},              // P
-		{ID: 2, Refs: []inRef{{Kind: "ConfigMap", Name: "ca-1"}}, Host: "b.example.com"},              // P' = P by value
-		{ID: 3, Refs: []inRef{{Kind: "ConfigMap", Name: "ca-2"}}, Host: "c.example.com"},              // Q
-		{ID: 4, Refs: []inRef{{Kind: "ConfigMap", Name: "ca-1"}}, Host: "c.example.com"},              // hostname differs from P
-		{ID: 5, WK: &sys, Host: "b.example.com"},                                                      // W
-		{ID: 6, WK: &sys, Host: "b.example.com"},                                                      // W' = W by value
+		{ID: 1, Refs: []inRef{{Kind: "ConfigMap", Name: "ca-1"}}, Host: "b.example.com"},                // P
+		{ID: 2, Refs: []inRef{{Kind: "ConfigMap", Name: "ca-1"}}, Host: "b.example.com"},                // P' = P by value
+		{ID: 3, Refs: []inRef{{Kind: "ConfigMap", Name: "ca-2"}}, Host: "c.example.com"},                // Q
+		{ID: 4, Refs: []inRef{{Kind: "ConfigMap", Name: "ca-1"}}, Host: "c.example.com"},                // hostname differs from P
+		{ID: 5, WK: &sys, Host: "b.example.com"},                                                        // W
+		{ID: 6, WK: &sys, Host: "b.example.com"},                                                        // W' = W by value
 		{ID: 7, Refs: []inRef{{Group: "core", Kind: "ConfigMap", Name: "ca-1"}}, Host: "b.example.com"}, // group spelled differently
 	}
 	var pols []*graph.BackendTLSPolicy
@@ -117,26 +122,116 @@ func runLoop(r *rng.R, n int, w *bufio.Writer) int {
 		emit(map[string]any{"k": "accepted", "l": l, "r": rh, "out": out})
 	}
 
-	// 3. ids, file names and PEM bytes
+	// 3. ids, file names and PEM bytes — through the EXPORTED Generate (robust against signature changes of generatePEM,
+	// and the only way to see what several key pairs of one configuration do to each other)
+	gen := ngxcfg.NewGeneratorImpl(false, nil, logr.Discard())
+	pemFiles := func(pairs map[dataplane.SSLKeyPairID]dataplane.SSLKeyPair) (out []fragFile) {
+		defer func() {
+			if rec := recover(); rec != nil {
+				out = []fragFile{{Path: "panic", Content: fmt.Sprint(rec)}}
+			}
+		}()
+		for _, f := range p.SortedFiles(gen.Generate(dataplane.Configuration{SSLKeyPairs: pairs})) {
+			if strings.HasPrefix(f.Path, "/etc/nginx/secrets/") {
+				out = append(out, fragFile{Path: f.Path, Content: string(f.Content)})
+			}
+		}
+		return out
+	}
 	names := []string{"default", "team-a", "a", "a-b", "tls-a", "x.y", "ns1", "very-long-name-0123456789"}
 	for _, ns := range names {
 		for _, nm := range names {
-			path, _ := ngxcfg.VerifC16PEM(dataplane.VerifC16KeyPairID(ns, nm), nil, nil)
-			emit(map[string]any{"k": "ids", "ns": ns, "name": nm, "kp": dataplane.VerifC16KeyPairID(ns, nm),
-				"cb": dataplane.VerifC16CertBundleID(ns, nm), "path": path})
+			id := dataplane.VerifC16KeyPairID(ns, nm)
+			fs := pemFiles(map[dataplane.SSLKeyPairID]dataplane.SSLKeyPair{dataplane.SSLKeyPairID(id): {}})
+			path := ""
+			if len(fs) == 1 {
+				path = fs[0].Path
+			}
+			emit(map[string]any{"k": "ids", "ns": ns, "name": nm, "kp": id, "cb": dataplane.VerifC16CertBundleID(ns, nm), "path": path})
 		}
 	}
-	for i := 0; i < n/4+8; i++ {
-		mk := func() string {
-			b := make([]byte, r.Intn(40))
-			for j := range b {
-				b[j] = "abc-\n =+/XYZ019"[r.Intn(15)]
-			}
-			return string(b)
+	mkBytes := func(n int) string {
+		b := make([]byte, n)
+		for j := range b {
+			b[j] = "abc-\n =+/XYZ019"[r.Intn(15)]
 		}
-		c, k := mk(), mk()
-		_, content := ngxcfg.VerifC16PEM("id", []byte(c), []byte(k))
-		emit(map[string]any{"k": "pem", "cert": c, "key": k, "out": string(content)})
+		return string(b)
+	}
+	for i := 0; i < n/4+8; i++ {
+		c, k := mkBytes(r.Intn(40)), mkBytes(r.Intn(40))
+		fs := pemFiles(map[dataplane.SSLKeyPairID]dataplane.SSLKeyPair{"id": {Cert: []byte(c), Key: []byte(k)}})
+		content := ""
+		if len(fs) == 1 {
+			content = fs[0].Content
+		}
+		emit(map[string]any{"k": "pem", "cert": c, "key": k, "out": content})
+	}
+	// 3b. SEVERAL key pairs in one configuration: equal sizes, strictly decreasing sizes, random sizes; the map order decides
+	// which file is written later, so every set is generated several times
+	type pairSpec struct {
+		ID   string `json:"id"`
+		Cert string `json:"cert"`
+		Key  string `json:"key"`
+	}
+	for i := 0; i < n/6+12; i++ {
+		np := r.Range(2, 4)
+		var specs []pairSpec
+		shape := i % 3
+		for k := 0; k < np; k++ {
+			cl, kl := 20+r.Intn(60), 10+r.Intn(40)
+			switch shape {
+			case 0: // equal sizes
+				cl, kl = 48, 24
+			case 1: // decreasing
+				cl, kl = 90-20*k, 40-8*k
+			}
+			specs = append(specs, pairSpec{ID: fmt.Sprintf("ssl_keypair_ns%d_s%d", i, k), Cert: mkBytes(cl), Key: mkBytes(kl)})
+		}
+		for rep := 0; rep < 4; rep++ {
+			m := map[dataplane.SSLKeyPairID]dataplane.SSLKeyPair{}
+			for _, sp := range specs {
+				m[dataplane.SSLKeyPairID(sp.ID)] = dataplane.SSLKeyPair{Cert: []byte(sp.Cert), Key: []byte(sp.Key)}
+			}
+			fs := pemFiles(m)
+			if fs == nil {
+				fs = []fragFile{}
+			}
+			emit(map[string]any{"k": "pemfiles", "pairs": specs, "files": fs, "shape": shape})
+		}
+	}
+	// 3c. one secretResolver, several resolves of the same Secrets (as the HTTPS listeners of one Gateway do)
+	pool := []*apiv1.Secret{
+		p.TLSSecret("default", "tls-a", 1), p.TLSSecret("default", "tls-b", 2),
+		mkSecret("default", "tls-mal", 4, secMalformed), mkSecret("default", "tls-opaque", 5, secOpaque),
+		mkSecret("default", "tls-swapped", 9, secSwapped), mkSecret("default", "tls-nokey", 10, secNoKey),
+		p.TLSSecret("team-a", "tls-a", 6), mkSecret("team-a", "tls-mal", 13, secMalformed),
+	}
+	keyNames := []types.NamespacedName{{Namespace: "default", Name: "tls-a"}, {Namespace: "default", Name: "tls-b"},
+		{Namespace: "default", Name: "tls-mal"}, {Namespace: "default", Name: "tls-opaque"}, {Namespace: "default", Name: "tls-swapped"},
+		{Namespace: "default", Name: "tls-nokey"}, {Namespace: "default", Name: "tls-missing"}, {Namespace: "team-a", Name: "tls-a"},
+		{Namespace: "team-a", Name: "tls-mal"}}
+	var inSecrets []inSecret
+	for _, x := range pool {
+		_, err := tls.X509KeyPair(x.Data[apiv1.TLSCertKey], x.Data[apiv1.TLSPrivateKeyKey])
+		inSecrets = append(inSecrets, inSecret{NS: x.Namespace, Name: x.Name, Type: string(x.Type), PairOK: err == nil})
+	}
+	resolveSeq := func(keys []types.NamespacedName) {
+		var ks []nn
+		for _, k := range keys {
+			ks = append(ks, nn{k.Namespace, k.Name})
+		}
+		emit(map[string]any{"k": "resolveseq", "secrets": inSecrets, "keys": ks, "out": graph.VerifC16ResolveSeq(pool, keys)})
+	}
+	for _, k := range keyNames { // every Secret two and three times in a row
+		resolveSeq([]types.NamespacedName{k, k})
+		resolveSeq([]types.NamespacedName{k, k, k})
+	}
+	for i := 0; i < n/4+8; i++ {
+		var keys []types.NamespacedName
+		for k := r.Range(2, 6); k > 0; k-- {
+			keys = append(keys, rng.Pick(r, keyNames))
+		}
+		resolveSeq(keys)
 	}
 
 	// 4. createProxyTLSFromBackends + protocol
